@@ -15,6 +15,7 @@ over it.  Unknown shapes are refused.
 import ast
 
 from .. import translate
+from . import normalize
 from ..translate import Untranslatable
 from .threshold import _expr, _find_func, _str_const
 from .tradeoff import _body, _int, _name, _single_assigns, only_statements
@@ -374,7 +375,7 @@ def _r(v):
 
 @translate.lifter
 def lift_thresholdfit(repo):
-    tree = ast.parse(translate._read(repo, TOF))
+    tree = normalize.parse(translate._read(repo, TOF))
     sm = _simple(tree)
     eo = _eo(tree)
     if eo["grid"] != (sm["lo"], sm["hi"], sm["extra"]):
